@@ -524,12 +524,22 @@ func checkRemarksLen(remarks string) string {
 }
 
 func extractAddressInfos(pkScript []byte) (scriptClass txscript.ScriptClass, recipient, staking, binding string, reqSigs int, err error) {
+	// ExtractPkScriptAddrs dereferences a nil address for a multisig template
+	// with an unparsable public key
+	defer func() {
+		if r := recover(); r != nil {
+			err = fmt.Errorf("failed to parse output script: %v", r)
+		}
+	}()
 	scriptClass, addrs, _, reqSigs, err := txscript.ExtractPkScriptAddrs(pkScript, config.ChainParams)
 	if err != nil {
 		return 0, "", "", "", 0, err
 	}
 	if len(addrs) == 0 {
 		return 0, "", "", "", 0, fmt.Errorf("no address parsed from output script")
+	}
+	if scriptClass == txscript.BindingScriptHashTy && len(addrs) < 2 {
+		return 0, "", "", "", 0, fmt.Errorf("invalid binding target in output script")
 	}
 
 	switch scriptClass {
